@@ -81,6 +81,10 @@ def result_of(sc, snapshot=False):
     tr = driver.run_world(sc, observe=0, snapshot=snapshot)
     ids = tr.sim.network.station_ids
     n = tr.sim.iteration
+    want_ids = sorted(s_["id"] for s_ in sc["network"]["stations"]) if sc["network"].get("kind", "custom") == "custom" else sorted(ids)
+    if sorted(ids) != want_ids or len(ids) != tr.sim.pilot_signals.shape[0]:
+        return tr, {"corrupt": "after the run network.station_ids reads %s; the network was built with %s (%d result rows)" % (ids[:8], want_ids[:8], tr.sim.pilot_signals.shape[0]),
+                    "exc": None, "iteration": n, "pilots": {}, "rates": {}, "energy": {}, "events": [], "digest": tr.digest}
     res = {"exc": None if tr.exc is None else type(tr.exc).__name__, "iteration": n,
            "pilots": {s: [float(x) for x in tr.sim.pilot_signals[i, :n]] for i, s in enumerate(ids)},
            "rates": {s: [float(x) for x in tr.sim.charging_rates[i, :n]] for i, s in enumerate(ids)},
@@ -182,6 +186,9 @@ def check(sc):
     kind = sc["party"]["kind"]
     out = base_outcome(tr, extra_sig=[kind])
     completion(tr, out, "C10", required=False)
+    if ref.get("corrupt"):
+        out.add("C10/station_list_corrupted", ref["corrupt"])
+        return out
     if out.aborted:
         return out
     r = sub(sc["seed"], "c10")
